@@ -37,7 +37,7 @@ theorem c09_schemas :
     ∧ Blue.Generated.sstTrailerBytes = 8 := by decide
 
 /-- `log_to_builder` / `log_to_setsum` hand a reader error on (`?`) — the model describes the code
-    after the repair of D-3 (`fixes/d3-log-to-builder-unwrap.diff`); on the code as found, which
+    after the repair of D-3 (`/repo fix 3de862f`); on the code as found, which
     unwraps, this obligation fails -/
 theorem c09_replay_propagates :
     Blue.Damage.replayPropagatesErrors = decide (Blue.Generated.logReplayUnwraps = 0) := by decide
